@@ -59,15 +59,17 @@ def c09(tier, seed, only):
     known = [k for k in load_known("C09") if k.get("harness") == "heur"]
     batch = []
     tables = (0, 1) if tier == "quick" else (0, 1, 2)
+    jobs = []
     for hname in h_heur.HEUR_NAMES:
         if only and hname not in only:
             continue
         for table in tables:
             kw = dict(hname=hname, height=5 if tier == "quick" else 6, tops=(0, 1, 2) if tier == "quick" else (0, 1, 2, 3), table=table, W=4 if tier == "quick" else 5, select=["C09"], known=known)
-            r = chk.explore("heur", kw, f"{hname}/table={table}")
-            pushed = [k for k in r.acc.counts if k.startswith("pushed:")]
-            chk.require(hname, bool(pushed), "the heuristic never returned")
+            jobs.append(dict(key="heur", params=kw, label=f"{hname}/table={table}", hname=hname))
         chk.functions.add(f"nucs.heuristics.{hname}_dom_heuristic.{hname}_dom_heuristic")
+    for job, r in zip(jobs, chk.explore_many(jobs)):
+        pushed = [k for k in r.acc.counts if k.startswith("pushed:")]
+        chk.require(job["hname"], bool(pushed), "the heuristic never returned")
     chk.explore("backtrack0", dict(), "backtrack at level 0")
     chk.functions.update(["nucs.solvers.choice_points.cp_put", "nucs.solvers.choice_points.backtrack", "nucs.heuristics.value_dom_heuristic.value_dom_heuristic", "nucs.propagators.propagators.add_propagators"])
     chk.bounds = dict(stack_height=5, start_levels=[0, 1, 2], domains=2, propagators=2, domain="[a,b], a<b, unbounded (+-2^30); min_cost: within [0,W)")
@@ -82,12 +84,10 @@ def c12(tier, seed, only):
     chk = Check("C12", tier, seed)
     batch = []
     K = 8 if tier == "quick" else 12
-    for shape in h_split.SHAPES:
-        if only and shape not in only:
-            continue
-        r = chk.explore("split", dict(shape=shape, K=K), f"split/{shape}/k<={K}")
+    jobs = [dict(key="split", params=dict(shape=shape, K=K), label=f"split/{shape}/k<={K}", shape=shape) for shape in h_split.SHAPES if not (only and shape not in only)]
+    for job, r in zip(jobs, chk.explore_many(jobs)):
         batch.extend(r.acc.validate)
-        chk.require(shape, any(k.startswith("parts:") for k in r.acc.counts) or any(k.startswith("violation") for k in r.acc.counts), "split never returned")
+        chk.require(job["shape"], any(k.startswith("parts:") for k in r.acc.counts) or any(k.startswith("violation") for k in r.acc.counts), "split never returned")
     chk.functions.add("nucs.problems.problem.Problem.split")
     chk.bounds = dict(k=f"1..{K} (symbolic)", domain="[a,b] with a<=b unbounded (+-2^30), other domain [c,d], offset in [-2,2]", shapes=list(h_split.SHAPES))
     chk.assumptions += [
@@ -115,11 +115,13 @@ def _reducer_runs(chk, tier, select, faults):
         grid = [(1, 1, 1), (2, 1, 2)]
     elif faults:
         grid = [(1, 2, 1), (2, 2, 1), (3, 1, 1)]
+    jobs = []
     for mode in ("solve", "minimize", "maximize"):
         for workers, K, sp in grid:
-            r = chk.explore("reducer", dict(mode=mode, workers=workers, K=K, faults=faults, spurious=sp, select=list(select), known=known), f"{mode}/workers={workers}/K={K}/faults={faults}/spurious={sp}", time_limit=1500 if tier == "quick" else 7200, flags=dict(loop_budget=60))
-            if not faults:
-                chk.require(f"{mode}/{workers}", r.acc.counts.get("returned", 0) > 0, "no healthy run returned")
+            jobs.append(dict(key="reducer", params=dict(mode=mode, workers=workers, K=K, faults=faults, spurious=sp, select=list(select), known=known), label=f"{mode}/workers={workers}/K={K}/faults={faults}/spurious={sp}", time_limit=1500 if tier == "quick" else 7200, flags=dict(loop_budget=60), tag=f"{mode}/{workers}"))
+    for job, r in zip(jobs, chk.explore_many(jobs)):
+        if not faults:
+            chk.require(job["tag"], r.acc.counts.get("returned", 0) > 0, "no healthy run returned")
     chk.functions.update(["nucs.solvers.multiprocessing_solver.MultiprocessingSolver.solve", "MultiprocessingSolver.optimize", "MultiprocessingSolver.minimize", "MultiprocessingSolver.maximize", "MultiprocessingSolver.get_statistics", "sum_stats", "max_stats"])
     chk.stubs += MP_STUBS
     chk.bounds = dict(grid_workers_x_max_solutions=grid, values="objective values and the 13 statistics of every message symbolic (+-2^30)")
@@ -159,14 +161,15 @@ def c19(tier, seed, only):
     heights = [4, 5, 8, 255, 256] if tier == "quick" else [4, 5, 6, 8, 16, 128, 255, 256]
     ctor_heights = [1, 2, 3, 4, 5, 128, 255, 256, 257, 258, 512]
     heurs = h_heur.HEUR_NAMES
+    jobs = []
     for h in ctor_heights:
-        chk.explore("stack_ctor", dict(height=h), f"ctor/H={h}", serial=True)
+        jobs.append(dict(key="stack_ctor", params=dict(height=h), label=f"ctor/H={h}", serial=True))
     for h in heights:
         for heur in heurs:
             if only and heur not in only:
                 continue
-            chk.explore("stack_step", dict(height=h, heur=heur), f"step/H={h}/{heur}")
-        chk.explore("stack_shave", dict(height=h), f"shave/H={h}")
+            jobs.append(dict(key="stack_step", params=dict(height=h, heur=heur), label=f"step/H={h}/{heur}"))
+        jobs.append(dict(key="stack_shave", params=dict(height=h), label=f"shave/H={h}"))
     chain = [(4, 1), (4, 2), (5, 2), (5, 3), (6, 3), (6, 4), (7, 4)] if tier == "quick" else [(4, 1), (4, 2), (5, 2), (5, 3), (6, 3), (6, 4), (7, 4), (7, 5), (8, 5), (8, 6)]
     for h, n in chain:
         for heur in heurs:
@@ -175,7 +178,8 @@ def c19(tier, seed, only):
             for shaving in (False, True):
                 if shaving and heur not in ("min_value", "mid_value"):
                     continue
-                chk.explore("stack_chain", dict(height=h, nvars=n, heur=heur, shaving=shaving), f"chain/H={h}/n={n}/{heur}/shaving={shaving}")
+                jobs.append(dict(key="stack_chain", params=dict(height=h, nvars=n, heur=heur, shaving=shaving), label=f"chain/H={h}/n={n}/{heur}/shaving={shaving}"))
+    chk.explore_many(jobs)
     pushed = sum(v for r in chk.runs for k, v in r["counts"].items() if k.startswith("pushed:"))
     refused = sum(v for r in chk.runs for k, v in r["counts"].items() if k.startswith("refused:"))
     chk.require("C19", pushed > 0, "no search step pushed a choice point")
@@ -206,14 +210,15 @@ def _objectives(name):
 def c01(tier, seed, only):
     chk = Check("C01", tier, seed)
     runs = solvefam.plan(tier, seed, models=only)
-    batch = solvefam.run_plan(chk, ["C01"], runs)
+    d = solvefam.Deferred(chk).add(["C01"], runs)
     # results of optimisation and of the multiprocessing workers are assignments too
     for name in OPT_MODELS if tier != "quick" else OPT_MODELS[:8]:
         if only and name not in only:
             continue
         for mode in ("minimize", "maximize"):
-            batch += solvefam.run_plan(chk, ["C01"], [(name, {})], mode=mode, objective=0)
-        batch += solvefam.run_plan(chk, ["C01"], [(name, {})], mode="solve_q")
+            d.add(["C01"], [(name, {})], mode=mode, objective=0)
+        d.add(["C01"], [(name, {})], mode="solve_q")
+    batch = d.run()
     chk.assumptions.append("multiprocessing solver: the worker entry points are run against a collecting queue here; that the parent yields exactly the workers' messages is C11")
     return chk.finish({"solve": batch})
 
@@ -224,7 +229,7 @@ def c02(tier, seed, only):
 
     chk = Check("C02", tier, seed)
     runs = solvefam.plan(tier, seed, models=only)
-    batch = solvefam.run_plan(chk, ["C02"], runs)
+    d = solvefam.Deferred(chk).add(["C02"], runs)
     # every order in which the constraints were posted
     import itertools
 
@@ -234,7 +239,8 @@ def c02(tier, seed, only):
         n = len(md["props"])
         if n >= 2:
             for order in list(itertools.permutations(range(n)))[1:]:
-                batch += solvefam.run_plan(chk, ["C02"], [(name, {})], order=list(order))
+                d.add(["C02"], [(name, {})], order=list(order))
+    batch = d.run()
     chk.assumptions.append("'the same multiset for every configuration and posting order' holds because every run is compared with the same semantic set {x in box | all documented relations hold} by a z3 query (exactly once + complete)")
     return chk.finish({"solve": batch})
 
@@ -242,7 +248,7 @@ def c02(tier, seed, only):
 @check("C03")
 def c03(tier, seed, only):
     chk = Check("C03", tier, seed)
-    batch = []
+    d = solvefam.Deferred(chk)
     pw = solvefam.pairwise_configs()
     k = seed
     for name in OPT_MODELS:
@@ -255,9 +261,10 @@ def c03(tier, seed, only):
                     cfgs.append(pw[k % len(pw)])
                     k += 1
                 for cfg in cfgs:
-                    batch += solvefam.run_plan(chk, ["C03", "C01"], [(name, cfg)], mode=mode, objective=obj)
-        batch += solvefam.run_plan(chk, ["C03", "C01", "C11"], [(name, {})], mode="minimize_q", objective=0)
-        batch += solvefam.run_plan(chk, ["C03", "C01", "C11"], [(name, {})], mode="maximize_q", objective=len(list(_objectives(name))) - 1)
+                    d.add(["C03", "C01"], [(name, cfg)], mode=mode, objective=obj)
+        d.add(["C03", "C01", "C11"], [(name, {})], mode="minimize_q", objective=0)
+        d.add(["C03", "C01", "C11"], [(name, {})], mode="maximize_q", objective=len(list(_objectives(name))) - 1)
+    batch = d.run()
     chk.assumptions += [
         "unwinding assertion: optimize() calls solve_one at most width+3 times (width = D+1 values of the objective's domain); exceeding it is reported",
         "distributed optimisation = the worker loop optimize_and_queue (run here against a collecting queue) + the reducer (C11) + the split (C12)",
@@ -274,22 +281,25 @@ def c04(tier, seed, only):
     batch = propfam.run_catalogue(chk, ["C04"], algs=only)
     # (i)(iii)(iv) whole runs: pops per pass <= 4(P+1)(S+2), optimize rounds <= width+3, while-iterations <= 6000
     runs = solvefam.plan(tier, seed, models=only)
-    batch2 = solvefam.run_plan(chk, ["C04"], runs)
+    d = solvefam.Deferred(chk).add(["C04"], runs)
     for name in OPT_MODELS[:9] if tier == "quick" else OPT_MODELS:
         if only and name not in only:
             continue
         objs = list(_objectives(name)) if name in ("obj_shared_offset", "shared_twice", "free2", "dummy_only") else [len(list(_objectives(name))) - 1]
         for obj in objs:
             for mode in ("minimize", "maximize"):
-                batch2 += solvefam.run_plan(chk, ["C04"], [(name, {})], mode=mode, objective=obj)
+                d.add(["C04"], [(name, {})], mode=mode, objective=obj)
+    batch2 = d.run()
     # the variable heuristics never answer "none" (-1) while a decision variable is free
+    jobs = []
     for vname in h_heur.VARH_NAMES:
         if only and vname not in only:
             continue
         small = vname == "max_regret" and tier == "quick"
-        r = chk.explore("varheur", dict(vname=vname, select=["C04"], W=3 if small else 4), f"varheur/{vname}", time_limit=900 if tier == "quick" else 3600)
-        chk.require(vname, r.acc.counts.get("returned", 0) > 0, "never returned")
+        jobs.append(dict(key="varheur", params=dict(vname=vname, select=["C04"], W=3 if small else 4), label=f"varheur/{vname}", time_limit=900 if tier == "quick" else 3600, vname=vname))
         chk.functions.add(f"nucs.heuristics.{vname}_var_heuristic.{vname}_var_heuristic")
+    for job, r in zip(jobs, chk.explore_many(jobs)):
+        chk.require(job["vname"], r.acc.counts.get("returned", 0) > 0, "never returned")
     chk.assumptions += [
         "unwinding assertions (checked, not assumed): while-iterations per compute_domains call <= 50 (n+m+6)^2; propagators popped per propagation pass <= 4 (P+1)(S+2) with P constraints and total domain size S; solve_one calls per optimisation <= width+3; while-iterations per whole run <= 6000",
         "a path that exhausts a budget is turned into a concrete instance and replayed on the real build under a wall-clock watchdog; only a reproduced non-termination is reported",
@@ -301,13 +311,14 @@ def c04(tier, seed, only):
 def c17(tier, seed, only):
     chk = Check("C17", tier, seed)
     runs = solvefam.plan(tier, seed, models=only)
-    batch = solvefam.run_plan(chk, ["C17"], runs)
+    d = solvefam.Deferred(chk).add(["C17"], runs)
     for name in ("lt", "alldiff3", "queens_like", "count", "circuit3"):
         if only and name not in only:
             continue
         for k in (1, 2):
-            batch += solvefam.run_plan(chk, ["C17"], [(name, {}), (name, dict(domh="mid"))], partial=k)
-        batch += solvefam.run_plan(chk, ["C17"], [(name, {})], mode="minimize", objective=0)
+            d.add(["C17"], [(name, {}), (name, dict(domh="mid"))], partial=k)
+        d.add(["C17"], [(name, {})], mode="minimize", objective=0)
+    batch = d.run()
     chk.stubs.append("ghost counters: interposed wrappers around every COMPUTE_DOMAINS_FCTS entry (calls, returned status, whether the domains changed), every DOM_HEURISTIC_FCTS entry (choices, deepest level), CONSISTENCY_ALG_FCTS entries and the BC call inside shaving (passes), backtrack (resumed choice points)")
     chk.assumptions += [
         "with shaving, SOLVER_CHOICE_NB / SOLVER_BACKTRACK_NB / SOLVER_CHOICE_DEPTH are not compared (shaving uses the same primitives internally); the propagator counters and ALG_BC_NB are",
@@ -337,13 +348,14 @@ def c08(tier, seed, only):
 
     chk = Check("C08", tier, seed)
     # layer 1: trigger sufficiency (only the propagators with a narrow mask have anything to show)
+    jobs = []
     for cfg in _lemma_cfgs(tier):
         if cfg["alg"] not in NARROW_MASK or cfg["n"] > (3 if tier == "quick" else 4):
             continue
         if only and cfg["alg"] not in only:
             continue
-        r = chk.explore("lemma_trigger", dict(cfg=cfg, known=chk.known), f"trigger/{cfg['alg']}/n={cfg['n']}/{cfg['params']}")
-        chk.require(cfg["alg"], r.acc.counts.get("stable-on-B", 0) > 0, "no stable box explored")
+        jobs.append(dict(key="lemma_trigger", params=dict(cfg=cfg, known=chk.known), label=f"trigger/{cfg['alg']}/n={cfg['n']}/{cfg['params']}", alg=cfg["alg"]))
+    n_trig = len(jobs)
     # layer 4 (ii): monotonicity of the exact propagators (direct two-box query; alldifferent/gcc by C14, see DESIGN)
     for cfg in _lemma_cfgs(tier):
         if cfg["alg"] not in MONO_DIRECT or cfg["n"] > (3 if tier == "quick" else 4) or len(cfg["params"]) > 4:
@@ -352,13 +364,15 @@ def c08(tier, seed, only):
             continue
         if tier == "quick" and cfg["alg"] in ("exactly_eq", "relation", "element_iv") and cfg["n"] >= 3:
             continue
-        chk.explore("lemma_mono", dict(cfg=cfg), f"mono/{cfg['alg']}/n={cfg['n']}/{cfg['params']}")
+        jobs.append(dict(key="lemma_mono", params=dict(cfg=cfg), label=f"mono/{cfg['alg']}/n={cfg['n']}/{cfg['params']}"))
     # layer 2: queue-invariant step of the real loop
     step_models = ["lt", "geq_leq", "alldiff_lt", "max_leq_min_geq", "queens_like", "shared_offset_lt", "shared_twice", "magic_like", "circuit3", "circuit3_twice", "and_true", "sum_eq"]
     for name in step_models:
         if only and name not in only:
             continue
-        chk.explore("lemma_bcstep", dict(model=name), f"bcstep/{name}")
+        jobs.append(dict(key="lemma_bcstep", params=dict(model=name), label=f"bcstep/{name}"))
+    for job, r in list(zip(jobs, chk.explore_many(jobs)))[:n_trig]:
+        chk.require(job["alg"], r.acc.counts.get("stable-on-B", 0) > 0, "no stable box explored")
     # layer 3: every consistency pass of whole runs (root, after each branch, after each backtrack)
     runs = solvefam.plan(tier, seed, models=only, extra_default=True)
     if tier == "quick":
@@ -415,14 +429,15 @@ def c13(tier, seed, only):
 
     chk = Check("C13", tier, seed)
     # lemma 1: Problem.init flattening, every posting order
+    jobs = []
     for name, md in h_solve.MODELS.items():
         if only and name not in only:
             continue
         n = len(md["props"])
         orders = [None] if n < 2 else [list(o) for o in itertools.permutations(range(n))][: (6 if tier == "quick" else 24)]
         for order in orders:
-            r = chk.explore("lemma_init", dict(model=name, order=order), f"init/{name}/order={order}")
-            chk.require(name, r.acc.counts.get("init-ok", 0) > 0 or any(k.startswith("violation") for k in r.acc.counts), "init never completed")
+            jobs.append(dict(key="lemma_init", params=dict(model=name, order=order), label=f"init/{name}/order={order}", name=name))
+    n_init = len(jobs)
     # lemma 3: translation invariance of one filtering call, c symbolic and unbounded
     for cfg in _lemma_cfgs(tier):
         f = h_lemma.TRANSLATION_INVARIANT.get(cfg["alg"])
@@ -434,18 +449,20 @@ def c13(tier, seed, only):
             continue
         if cfg["alg"] == "gcc":
             continue  # the box contract of gcc pins the values to [v0, v0+m): translation is covered by the symbolic-v0 run of the thorough tier
-        chk.explore("lemma_transl", dict(cfg=cfg), f"transl/{cfg['alg']}/n={cfg['n']}/{cfg['params']}")
+        jobs.append(dict(key="lemma_transl", params=dict(cfg=cfg), label=f"transl/{cfg['alg']}/n={cfg['n']}/{cfg['params']}"))
+    for job, r in list(zip(jobs, chk.explore_many(jobs)))[:n_init]:
+        chk.require(job["name"], r.acc.counts.get("init-ok", 0) > 0 or any(k.startswith("violation") for k in r.acc.counts), "init never completed")
     # twin micro-models: both formulations are compared with the same semantic set (C02's exactly-once + complete query)
-    batch = []
+    d = solvefam.Deferred(chk)
     twin_models = sorted({m for pair in TWINS.values() for m in pair} | {"lt_swapped"})
     for name in twin_models:
         if only and name not in only:
             continue
-        batch += solvefam.run_plan(chk, ["C01", "C02"], [(name, {}), (name, dict(cons="shaving", domh="mid"))])
+        d.add(["C01", "C02"], [(name, {}), (name, dict(cons="shaving", domh="mid"))])
         objs = list(_objectives(name)) if name in ("twin_shared", "twin_linked", "lt_swapped") else [0]
         for obj in objs:
             for mode in ("minimize", "maximize"):
-                batch += solvefam.run_plan(chk, ["C03", "C01"], [(name, {})], mode=mode, objective=obj)
+                d.add(["C03", "C01"], [(name, {})], mode=mode, objective=obj)
     # permuting constraints
     for name, md in h_solve.MODELS.items():
         if only and name not in only:
@@ -453,7 +470,8 @@ def c13(tier, seed, only):
         n = len(md["props"])
         if 2 <= n <= 3 and name not in twin_models:
             for order in list(itertools.permutations(range(n)))[1:]:
-                batch += solvefam.run_plan(chk, ["C01", "C02"], [(name, {})], order=list(order))
+                d.add(["C01", "C02"], [(name, {})], order=list(order))
+    batch = d.run()
     chk.assumptions += [
         "twin formulations (shared domain + offset vs separate variables linked by an equality; a constraint posted twice; an added dummy / always-true constraint; permuted constraints or variables) have the same semantic set by construction; each formulation is decided equal to that set by z3 (exactly once + complete), hence equal to each other; optima likewise",
         "'shipped examples at sizes far beyond brute force' is outside the claim: whole searches are explored symbolically only for micro-models; the size-independent part are the lemmas (init flattening, offset write-back via the shared_twice/queens_like models, translation)",
@@ -469,24 +487,29 @@ def c10(tier, seed, only):
     models = ["lt", "sum_eq", "geq_leq", "alldiff3", "alldiff_lt", "max_eq", "max_leq_min_geq", "queens_like", "shared_twice", "magic_like", "count", "element_liv", "lex", "relation", "and_true", "gcc", "circuit3", "noncoprime_eq", "lin3"]
     if tier == "quick":
         models = [m for m in models if m not in ("count", "gcc")]
+    jobs = []
     for name in models:
         if only and name not in only:
             continue
         for state in ("root", "after_choice"):
-            r = chk.explore("shave_vs_bc", dict(model=name, state=state), f"shave_vs_bc/{name}/{state}")
-            chk.require(f"{name}/{state}", any(k.startswith("status:") or k == "root-not-unbound" for k in r.acc.counts), "never returned")
-    r = chk.explore("shave_bound", dict(height=5), "shave_bound/BC-contract-stub")
+            jobs.append(dict(key="shave_vs_bc", params=dict(model=name, state=state), label=f"shave_vs_bc/{name}/{state}", tag=f"{name}/{state}"))
+    jobs.append(dict(key="shave_bound", params=dict(height=5), label="shave_bound/BC-contract-stub"))
+    rs = chk.explore_many(jobs)
+    for job, r in list(zip(jobs, rs))[:-1]:
+        chk.require(job["tag"], any(k.startswith("status:") or k == "root-not-unbound" for k in r.acc.counts), "never returned")
+    r = rs[-1]
     chk.require("shave_bound", r.acc.counts.get("shaved:True", 0) > 0 and r.acc.counts.get("shaved:False", 0) > 0, "both verdicts must be reached")
     # C: a solver using shaving enumerates exactly the semantic set and finds the optimum (hence the same as with BC: C02/C03)
     runs = [(n, dict(cons="shaving", varh=v, domh=d)) for n, v, d in [("lt", "first", "min"), ("alldiff3", "smallest", "max"), ("queens_like", "first", "mid"), ("max_eq", "greatest", "split"), ("shared_twice", "first", "min"), ("circuit3", "first", "max"), ("count", "first", "mid"), ("geq_leq", "smallest", "split")]]
     if only:
         runs = [x for x in runs if x[0] in only]
-    batch = solvefam.run_plan(chk, ["C01", "C02"], runs)
+    d_ = solvefam.Deferred(chk).add(["C01", "C02"], runs)
     for n in ("lt", "sum_eq", "max_eq", "obj_under_leq"):
         if only and n not in only:
             continue
         for mode in ("minimize", "maximize"):
-            batch += solvefam.run_plan(chk, ["C03", "C01"], [(n, dict(cons="shaving"))], mode=mode, objective=0)
+            d_.add(["C03", "C01"], [(n, dict(cons="shaving"))], mode=mode, objective=0)
+    batch = d_.run()
     chk.functions.update(["shaving_consistency_algorithm", "shave_bound", "bound_consistency_algorithm", "min_value_dom_heuristic", "max_value_dom_heuristic", "first_not_instantiated_var_heuristic", "backtrack"])
     chk.stubs.append("inside the shave_bound lemma only: bound_consistency_algorithm replaced by its contract (any status; may only shrink the current level and clear flags of the current level)")
     chk.assumptions += ["search states: the root and the state after propagation + one min-value branch on the first free variable", "shaving is documented as experimental; its own statistics are not part of this property"]
@@ -499,10 +522,9 @@ def c16(tier, seed, only):
 
     chk = Check("C16", tier, seed)
     batch = propfam.run_catalogue(chk, ["C16"], algs=only)
-    for hname in h_heur.HEUR_NAMES:
-        chk.explore("heur", dict(hname=hname, select=["C16"], table=0), f"heur/{hname}")
-    for vname in h_heur.VARH_NAMES:
-        chk.explore("varheur", dict(vname=vname, select=["C16"], W=3 if (vname == "max_regret" and tier == "quick") else 4), f"varheur/{vname}")
+    jobs = [dict(key="heur", params=dict(hname=hname, select=["C16"], table=0), label=f"heur/{hname}") for hname in h_heur.HEUR_NAMES]
+    jobs += [dict(key="varheur", params=dict(vname=vname, select=["C16"], W=3 if (vname == "max_regret" and tier == "quick") else 4), label=f"varheur/{vname}") for vname in h_heur.VARH_NAMES]
+    chk.explore_many(jobs)
     runs = solvefam.plan(tier, seed, models=only)
     batch2 = solvefam.run_plan(chk, ["C16"], runs)
     ob = chk.res.obligations
@@ -525,10 +547,11 @@ def c15(tier, seed, only):
     tie_cfgs = [dict(alg="alldifferent", n=2, params=[]), dict(alg="alldifferent", n=3, params=[]), dict(alg="gcc", n=2, params=[0, ["s", 0, 2], ["s", 0, 2], ["s", 1, 2], ["s", 1, 2]]), dict(alg="gcc", n=3, params=[0, 0, 1, 0, 3, 1, 1])]
     if tier != "quick":
         tie_cfgs += [dict(alg="gcc", n=3, params=[0, 1, 0, 1, 2, 1, 2]), dict(alg="gcc", n=3, params=[0, 0, 0, 0, 2, 2, 2])]
+    jobs = []
     for cfg in tie_cfgs:
         if only and cfg["alg"] not in only:
             continue
-        chk.explore("prop_ties", dict(cfg=cfg), f"ties/{cfg['alg']}/n={cfg['n']}/{cfg['params']}", flags=dict(loop_budget=4000))
+        jobs.append(dict(key="prop_ties", params=dict(cfg=cfg), label=f"ties/{cfg['alg']}/n={cfg['n']}/{cfg['params']}", flags=dict(loop_budget=4000)))
     # (b) no dependence on uninitialised memory, (c) history independence
     hist = [["other_solver_abandoned"], ["other_solver_exhausted"], ["minimize_first"], ["register_extras"], ["split"], ["init_twice"], ["other_solver_abandoned", "register_extras"], ["minimize_first", "other_solver_exhausted"], ["sibling_problem"], ["sibling_problem", "other_solver_abandoned"]]
     models = ["lt", "alldiff3", "queens_like", "shared_twice", "count", "circuit3", "max_eq", "magic_like", "relation_alldiff", "element_iv", "gcc"]
@@ -537,6 +560,7 @@ def c15(tier, seed, only):
     batch = []
     cfgs = [{}, dict(cons="shaving", domh="mid"), dict(varh="smallest", domh="max")]
     k = seed
+    n_ties = len(jobs)
     for name in models:
         if only and name not in only:
             continue
@@ -545,25 +569,29 @@ def c15(tier, seed, only):
                 continue  # the two larger models take half of the histories each in the quick tier
             cfg = cfgs[k % len(cfgs)]
             k += 1
-            r = chk.explore("history", dict(model=name, history=h, cfg=cfg), f"history/{name}/{'+'.join(h)}/{cfg or 'default'}", flags=dict(loop_budget=12000))
-            batch.extend(r.acc.validate[:12])
-    batch += solvefam.run_plan(chk, ["C15"], [(n, {}) for n in models])
+            jobs.append(dict(key="history", params=dict(model=name, history=h, cfg=cfg), label=f"history/{name}/{'+'.join(h)}/{cfg or 'default'}", flags=dict(loop_budget=12000)))
+    n_hist = len(jobs)
     # (d) mode hazards: concrete values read from uint8/uint16/int16/int32 arrays carry their type; when the exact result of an
     # arithmetic operation (what Numba's 64-bit widening computes) does not fit the type NumPy's scalar arithmetic gives it
     # in interpreted mode, the path's witness is run in both modes on the real build and the outcomes must be equal
     hz_flags = dict(track_dtypes=True)
+    from nusym import catalogue
+
     for cfg in _lemma_cfgs(tier):
         if cfg["alg"] not in ("alldifferent", "gcc", "no_sub_cycle", "scc") or cfg["n"] > 3:
             continue
         if cfg["alg"] == "gcc" and cfg["n"] == 3 and tier == "quick" and cfg["params"] != [0, 0, 1, 0, 3, 1, 1]:
             continue
-        from nusym import catalogue
-
-        r = chk.explore("prop", dict(cfg=cfg, select=["C15"], known=[k for k in load_known("C04") if k.get("harness", "prop") == "prop"]), f"hazards/{cfg['alg']}/n={cfg['n']}/{cfg['params']}", flags=dict(hz_flags, loop_budget=catalogue.loop_budget(cfg)))
+        jobs.append(dict(key="prop", params=dict(cfg=cfg, select=["C15"], known=[k for k in load_known("C04") if k.get("harness", "prop") == "prop"]), label=f"hazards/{cfg['alg']}/n={cfg['n']}/{cfg['params']}", flags=dict(hz_flags, loop_budget=catalogue.loop_budget(cfg))))
     for h_, n_ in ((8, 4), (8, 5), (256, 253), (256, 254)) if tier == "quick" else ((8, 4), (8, 5), (255, 252), (256, 252), (256, 253), (256, 254), (256, 255)):
         for heur in ("min_value", "mid_value") if (tier != "quick" or h_ < 100) else ("min_value",):
-            chk.explore("stack_chain", dict(height=h_, nvars=n_, heur=heur, shaving=False, prop="C15", fixed_width=1 if heur == "min_value" else 2), f"hazards/chain/H={h_}/n={n_}/{heur}", flags=hz_flags, serial=True, time_limit=1200)
-    batch += solvefam.run_plan(chk, ["C15"], [(n, {}) for n in ("alldiff3", "circuit3", "gcc", "queens_like")], flags_extra=hz_flags)
+            jobs.append(dict(key="stack_chain", params=dict(height=h_, nvars=n_, heur=heur, shaving=False, prop="C15", fixed_width=1 if heur == "min_value" else 2), label=f"hazards/chain/H={h_}/n={n_}/{heur}", flags=hz_flags, serial=True, time_limit=1200))
+    rs = chk.explore_many(jobs)
+    for r in rs[n_ties:n_hist]:
+        batch.extend(r.acc.validate[:12])
+    d = solvefam.Deferred(chk).add(["C15"], [(n, {}) for n in models])
+    d.add(["C15"], [(n, {}) for n in ("alldiff3", "circuit3", "gcc", "queens_like")], flags_extra=hz_flags)
+    batch += d.run()
     chk.tier_validate_jit = True
     chk.extra_cov["explanation"] = (
         "Decided by symbolic execution of the source (interpreted semantics): on every path (1) solutions and statistics contain no cell of an np.empty array (all such cells are unconstrained symbols), "
